@@ -1,7 +1,7 @@
 (* C12 — Globs apply to exactly the matching objects and connections.  Statements only. *)
 From Coq Require Import List NArith Bool.
 Import ListNotations.
-Require Import V.C12.Model V.C12.Proofs.
+Require Import V.C12.Model V.C12.Proofs V.C12.GlobModel V.C12.GlobProofs.
 Open Scope N_scope.
 
 (* ---- the specification is the standard wildcard semantics ---- *)
@@ -93,7 +93,55 @@ Theorem C12_match_never_reserved :
        match_pattern_fixed s pat = Ok false /\ match_pattern_anchored s pat = Ok false /\ glob_matches s pat = false).
 Proof. exact thm_never_reserved. Qed.
 
+(* ---- part 2: the glob mechanism of d2ir on the core fragment (GlobModel.v) ---- *)
+
+(* glob_equiv_expansion.  For every program of explicit keys and single-level field globs (any number of
+   statements, keys of any depth, globs with any number of pattern levels, written before or after their
+   targets, explicit values before or after the globs), compiling the program with the glob mechanism
+   (glob contexts, appliedFields, the nested lazy re-application loops of compileKey / EnsureField, fuel never
+   exhausted) yields exactly the IR - same fields, same order, same values - as compiling its reference
+   expansion, which contains no glob: each glob replaced by its body on every existing target, and re-declared
+   for every later target at the key that creates it (bare key, then the bodies, then the key's own value).
+   For any field-name equality keq (reflexive) and ANY matching function mt; the suffix names of a glob must be
+   names no pattern matches (reserved keywords), a glob key must not be written twice (see the refutation). *)
+Theorem C12_glob_equiv_expansion :
+  forall (keq : str -> str -> bool) (mt : str -> list str -> bool), (forall a, keq a a = true) ->
+  forall p, wf_from mt [] p -> run keq mt p = Some (run_plain keq (expand keq mt p)).
+Proof. exact glob_equiv_expansion. Qed.
+
+(* the same for what d2ir runs (strings.EqualFold, the pinned matchPattern), with the decidable side condition *)
+Theorem C12_glob_equiv_expansion_d2ir :
+  forall p, wf_progb p = true -> run keq_go mt_go p = Some (run_plain keq_go (expand keq_go mt_go p)).
+Proof. exact glob_equiv_expansion_go. Qed.
+
+(* "exactly the matching objects": the targets of a glob are exactly the existing fields at the depth of its
+   pattern part whose names the patterns match, level by level *)
+Theorem C12_glob_targets_exactly_the_matching_fields :
+  forall (keq : str -> str -> bool) (mt : str -> list str -> bool) g st t, g_pre g = [] ->
+  (In t (targets keq mt g st) <-> chain st [] t /\ Forall2 (fun m p => mt m p = true) t (g_pats g)).
+Proof. exact targets_spec. Qed.
+
+(* globs never match reserved keywords (exact spelling; for other letter cases see C12_match_reserved_case_refuted) *)
+Theorem C12_glob_targets_never_reserved :
+  forall g st t, g_pre g = [] -> g_pats g <> [] -> Forall (fun p => p <> []) (g_pats g) ->
+  In t (targets keq_go mt_go g st) -> forall n, In n t -> go_reserved n = false.
+Proof. exact glob_targets_never_reserved. Qed.
+
+(* without the side condition "not written twice" the statement is false, on the model as on the real compiler:
+   `*.style.fill: r; a; *.style.fill: bl; *.style.fill: r` leaves a.style.fill = bl *)
+Theorem C12_glob_duplicate_refuted :
+  run keq_go mt_go dup_witness <> Some (run_plain keq_go (expand keq_go mt_go dup_witness)).
+Proof. exact glob_duplicate_refuted. Qed.
+
 (* non-vacuity of the hypotheses *)
+Example C12_glob_equiv_expansion_satisfiable :
+  wf_progb [SGlob (G [] [[[42]]] [[115;116;121;108;101];[102;105;108;108]] [114]);
+            SKey [[97];[115;116;121;108;101];[102;105;108;108]] (Some [98]); SKey [[98];[99]] None;
+            SGlob (G [] [[[97];[42]];[[42]]] [[108;97;98;101;108]] [120])] = true.
+Proof. vm_compute. reflexivity. Qed.
+Example C12_match_pattern_fixed_total_prefix_match_satisfiable :
+  [[42];[98]] <> [] /\ alternating [[42];[98]] = true.
+Proof. split; [discriminate | reflexivity]. Qed.
 Example C12_match_pattern_spec_satisfiable :
   alternating [[97];[42];[98]] = true /\ glob_matches [97;120;98] [[97];[42];[98]] = true.
 Proof. vm_compute. auto. Qed.
@@ -118,3 +166,8 @@ Print Assumptions C12_match_reserved_case_refuted.
 Print Assumptions C12_match_pattern_pinned_is_prefix_match.
 Print Assumptions C12_match_pattern_pinned_trailing_star.
 Print Assumptions C12_match_never_reserved.
+Print Assumptions C12_glob_equiv_expansion.
+Print Assumptions C12_glob_equiv_expansion_d2ir.
+Print Assumptions C12_glob_targets_exactly_the_matching_fields.
+Print Assumptions C12_glob_targets_never_reserved.
+Print Assumptions C12_glob_duplicate_refuted.
